@@ -1,12 +1,14 @@
 (* Proofs/EvalLogRootName.v — C05: the root-name clause with the anonymous names made explicit.
 
    environment.go (ExecContext.CopyForEnv, L52-55) replaces the root name when it is "" OR "<yaml>"
-   (esc.AnonymousEnvironmentName); Model/Eval.v ([eval_env]: root' := if root = "" then name else root) replaces it
-   only when it is "".  For a root environment named "<yaml>" the model therefore tells a provider inside an imported
-   environment the root "<yaml>" where the implementation says the name of the import ([yaml_root_model_deviation]
-   below; measured on every run by lib/verif/props/c05.py, family `yaml_root`).  Until Model/Eval.v follows the source
-   (one line: root' := if String.eqb root "" || String.eqb root "<yaml>" then name else root), the root-name clauses
-   are stated for names that are not anonymous — the hypothesis is what makes them statements about the code. *)
+   (esc.AnonymousEnvironmentName), and so does Model/Eval.v ([eval_env]: root' := if root = "" || root = "<yaml>" then
+   name else root).  Consequences proved here and in EvalLog.v:
+   * for a root environment whose name is NOT anonymous every provider is told that name ([r = name]); the hypothesis is
+     part of the rule, not a restriction of the model: for the root "<yaml>" the provider of an imported environment
+     "imp" IS told "imp" ([yaml_root_follows_source], by the code and now by the model);
+   * for EVERY name: the root a provider is told is never anonymous unless the provider sits in that anonymous
+     environment itself ([anon_root r = false \/ r = c]) - this is what distinguishes the rule from the one the model
+     had before (which told imp's provider "<yaml>"). *)
 From Verif Require Import Base.Bytes Model.Chain Model.GoText Model.Envelope Model.Eval Corr.EvalWire.
 From Verif Require Import Proofs.EvalLogKit Proofs.EvalLogInd Proofs.EvalLog Proofs.EvalLogCorr
                           Proofs.EvalLog2Ind Proofs.EvalLog2Names.
@@ -14,11 +16,15 @@ From Verif Require Corr.C05.
 
 Definition anon_yaml : string := "<yaml>".
 
+Lemma anonymous_name_anon_root n : C05.anonymous_name n = anon_root n.
+Proof. reflexivity. Qed.
+
 Theorem run_open_inputs_ok_named fuel W name d id p xin r c :
   In (EvOpen id p xin r c) (ob_log (run fuel W name d)) ->
   w_check W = false
   /\ c = fst id
   /\ (name <> "" -> name <> "<yaml>" -> r = name)
+  /\ (C05.anonymous_name r = false \/ r = c)
   /\ exists pv iv,
        alookup p (w_provs W) = Some pv
        /\ export big_fuel iv = Some xin
@@ -26,16 +32,14 @@ Theorem run_open_inputs_ok_named fuel W name d id p xin r c :
        /\ x_has_unknown xin = false
        /\ fst (validate (AccIn (pv_in pv)) iv) = true
        /\ x_is_obj xin = true.
-Proof.
-  intros H. destruct (run_open_inputs_ok fuel W name d id p xin r c H) as (A & B & C & D).
-  repeat split; auto.
-Qed.
+Proof. exact (run_open_inputs_ok fuel W name d id p xin r c). Qed.
 
 Theorem open_inputs_ok_named W fuel root name d id p xin r c :
   In (EvOpen id p xin r c) (log (snd (eval_env W fuel root name d st0))) ->
   w_check W = false
   /\ c = fst id
   /\ (eff_root root name <> "" -> eff_root root name <> "<yaml>" -> r = eff_root root name)
+  /\ (C05.anonymous_name r = false \/ r = c)
   /\ exists pv iv,
        alookup p (w_provs W) = Some pv
        /\ export big_fuel iv = Some xin
@@ -43,10 +47,7 @@ Theorem open_inputs_ok_named W fuel root name d id p xin r c :
        /\ x_has_unknown xin = false
        /\ fst (validate (AccIn (pv_in pv)) iv) = true
        /\ x_is_obj xin = true.
-Proof.
-  intros H. destruct (open_inputs_ok W fuel root name d id p xin r c H) as (A & B & C & D).
-  repeat split; auto.
-Qed.
+Proof. exact (open_inputs_ok W fuel root name d id p xin r c). Qed.
 
 Theorem matched_opens_ok_named fuel W name d lg p i r c :
   log_matches (ob_log (run fuel W name d)) lg = true ->
@@ -56,18 +57,12 @@ Theorem matched_opens_ok_named fuel W name d lg p i r c :
   /\ x_is_obj i = true
   /\ (exists pv, alookup p (w_provs W) = Some pv)
   /\ (name <> "" -> name <> "<yaml>" -> r = name)
+  /\ (C05.anonymous_name r = false \/ r = c)
   /\ (c = name \/ In (OLoad c) lg).
-Proof.
-  intros Hm Hin. destruct (matched_opens_ok fuel W name d lg p i r c Hm Hin) as (A & B & C & D & E & F).
-  repeat split; auto.
-Qed.
+Proof. exact (matched_opens_ok fuel W name d lg p i r c). Qed.
 
 Lemma anonymous_name_false n : C05.anonymous_name n = false <-> n <> "" /\ n <> "<yaml>".
-Proof.
-  unfold C05.anonymous_name. rewrite Bool.orb_false_iff. split.
-  - intros [A B]. split; intros ->; [rewrite String.eqb_refl in A|rewrite String.eqb_refl in B]; discriminate.
-  - intros [A B]. split; apply String.eqb_neq; assumption.
-Qed.
+Proof. exact (anon_root_false n). Qed.
 
 (* the clauses of Corr/C05.spec_other for an implementation log that matches the model's; the root clause is
    [C05.root_ok], which for a root that is not anonymous is [r = name] *)
@@ -80,20 +75,21 @@ Theorem matched_open_oracle_clauses_named fuel W name d lg p i r c :
   /\ (forall cs, C05.c_name cs = name -> negb (C05.root_ok cs r c) = false)
   /\ negb (Nat.eqb (C05.count_str p (map (fun o : string * xval * string * string => fst (fst (fst o))) (C05.opens lg))) 1) = false.
 Proof.
-  intros Han Hu Hm Hin. pose proof (proj1 (anonymous_name_false name) Han) as [Hne _].
-  destruct (matched_open_oracle_clauses fuel W name d lg p i r c Hne Hu Hm Hin) as (A & B & C & D).
+  intros Han Hu Hm Hin. pose proof (proj1 (anonymous_name_false name) Han) as [Hne Hny].
+  destruct (matched_open_oracle_clauses fuel W name d lg p i r c Hne Hny Hu Hm Hin) as (A & B & C & D).
   repeat split; auto. intros cs Hcs. unfold C05.root_ok. rewrite Hcs, Han. exact C.
 Qed.
 
-(* ---- the deviation, computed: root "<yaml>" importing "imp", whose provider is told the root ---- *)
+(* ---- the anonymous root, computed: root "<yaml>" importing "imp", whose provider is told the root ---- *)
 Definition W_yaml : world :=
   {| w_envs := [("imp", LoadOk {| ed_imports := []; ed_values := [("b", EOpen "q" (EObj []))] |})];
      w_provs := [("q", {| pv_in := InAlways; pv_out := ScAlways; pv_beh := PEcho |})]; w_ctx := [];
      w_check := false; w_show := false; w_fault := None; w_decrypt := fun _ _ => None |}.
 Definition d_yaml : envdef := {| ed_imports := [("imp", true)]; ed_values := [("z", ENull)] |}.
 
-(* the MODEL says root "<yaml>"; eval.EvalEnvironment says root "imp" (CopyForEnv), see the header *)
-Example yaml_root_model_deviation :
+(* the model says root "imp", as eval.EvalEnvironment does (CopyForEnv); before the model followed the source it said
+   "<yaml>" *)
+Example yaml_root_follows_source :
   ob_log (run 30 W_yaml "<yaml>" d_yaml)
-  = [EvLoad "imp"; EvLoadProvider "q"; EvOpen ("imp", [IKey "b"]) "q" (XObj false false []) "<yaml>" "imp"].
+  = [EvLoad "imp"; EvLoadProvider "q"; EvOpen ("imp", [IKey "b"]) "q" (XObj false false []) "imp" "imp"].
 Proof. vm_compute. reflexivity. Qed.
